@@ -508,7 +508,7 @@ def _body(rng, kind, prefix, allow_amplify):
     nodes = []
     cur = "$in"
     for j in range(rng.choice([1, 2, 3, 4])):
-        opk = rng.choice(["map", "map_st", "map_st", "filter", "shuffle", "flat", "gbsum"])
+        opk = rng.choice(["map", "map_st", "map_st", "filter", "shuffle", "flat", "gbsum", "gbwin"])
         nid = f"{prefix}b{j}"
         if opk == "map":
             nodes.append({"id": nid, "op": "map", "f": rng.choice(MAPS), "in": [cur]})
@@ -521,6 +521,14 @@ def _body(rng, kind, prefix, allow_amplify):
         elif opk == "flat":
             g = rng.choice(FLATS) if allow_amplify else rng.choice(["drop_even", "one"])
             nodes.append({"id": nid, "op": "flat_map", "g": g, "in": [cur]})
+        elif opk == "gbwin":
+            # a count window inside the body (what an iteration leaves in the window must not reach the next
+            # one); the aggregate `count` does not depend on the arrival order within a key
+            n = rng.choice([2, 3, 4])
+            nodes.append({"id": nid + "g", "op": "group_by", "m": rng.choice([1, 2, 3, 5]), "in": [cur]})
+            nodes.append({"id": nid + "w", "op": "count_window", "n": n, "s": rng.choice([n, n, 1, 2]),
+                          "exact": rng.random() < 0.6, "agg": "count", "in": [nid + "g"]})
+            nodes.append({"id": nid, "op": "drop_key", "in": [nid + "w"]})
         else:
             # an aggregation inside the body: group_by_fold + drop_key
             nodes.append({"id": nid + "g", "op": "gb_fold", "m": rng.choice([2, 3]), "agg": rng.choice(["sum", "max"]), "in": [cur]})
